@@ -190,11 +190,14 @@ func formatEventsParseError(path string, lineNo int, line []byte, cause error) e
 }
 
 func appendEvents(path string, events []Event) error {
-	file, err := os.OpenFile(path, os.O_APPEND|os.O_CREATE|os.O_WRONLY, 0644)
+	file, err := os.OpenFile(path, os.O_APPEND|os.O_CREATE|os.O_RDWR, 0644)
 	if err != nil {
 		return err
 	}
 	defer file.Close()
+	if err := repairTornTail(file); err != nil {
+		return err
+	}
 	for _, event := range events {
 		data, err := json.Marshal(event)
 		if err != nil {
@@ -206,6 +209,50 @@ func appendEvents(path string, events []Event) error {
 		}
 	}
 	return nil
+}
+
+// repairTornTail makes the log end in '\n' before new events are appended.
+// A final line without a newline is what a crash or partial write leaves behind;
+// readEvents keeps it when it parses and drops it otherwise, so do the same here
+// instead of gluing the next event onto it.
+func repairTornTail(file *os.File) error {
+	info, err := file.Stat()
+	if err != nil {
+		return err
+	}
+	size := info.Size()
+	if size == 0 {
+		return nil
+	}
+	const chunk = 64 * 1024
+	var tail []byte
+	lineStart := int64(0)
+	for end := size; end > 0; {
+		start := end - chunk
+		if start < 0 {
+			start = 0
+		}
+		buf := make([]byte, end-start)
+		if _, err := file.ReadAt(buf, start); err != nil {
+			return err
+		}
+		if end == size && buf[len(buf)-1] == '\n' {
+			return nil
+		}
+		if i := bytes.LastIndexByte(buf, '\n'); i >= 0 {
+			tail = append(buf[i+1:], tail...)
+			lineStart = start + int64(i) + 1
+			break
+		}
+		tail = append(buf, tail...)
+		end = start
+	}
+	trimmed := bytes.TrimSpace(tail)
+	var event Event
+	if len(trimmed) == 0 || json.Unmarshal(trimmed, &event) == nil {
+		return writeAll(file, []byte{'\n'})
+	}
+	return file.Truncate(lineStart)
 }
 
 func writeEventsFile(path string, events []Event) error {
